@@ -560,7 +560,18 @@ func ruleCapsAndTimeouts(w *World, r *Run, ruleE, ruleF string) {
 					return nil
 				}
 				h := bf(opts, "Handler")
-				good := h != nil && h.Kind == "call" && h.Name == "net/http.MaxBytesHandler" && h.Args[2] == handler
+				// the handler the loop was given: its http.Handler parameter, or an http.Handler field of its receiver
+				given := func(t *Term) bool {
+					if t == handler && handler != nil {
+						return true
+					}
+					if t == nil || t.Typ == nil || typeStr(t.Typ) != "http.Handler" {
+						return false
+					}
+					rp := recvParam(fn)
+					return t.Kind == "param" || (t.Kind == "field" && rp != nil && len(t.Args) == 1 && t.Args[0] == rp)
+				}
+				good := h != nil && h.Kind == "call" && h.Name == "net/http.MaxBytesHandler" && given(h.Args[2])
 				if good {
 					// the cap: a positive constant, or configuration (nothing in it comes from a call or from the peer)
 					if c, okc := constVal(h.Args[3]); okc {
